@@ -386,18 +386,27 @@ fn request_for(r: &mut Rng, blk: Option<&Vec<u8>>) -> Req {
 
 /// C10: sequences of requests against fast-loaded tapes, including requests past the end
 fn fastload(out: &mut Out, r: &mut Rng, tapes: u64, m128_too: bool) {
+    let mut kept: Option<(bool, Emu)> = None;
     for ti in 0..tapes {
         let m128 = m128_too && ti % 3 == 2;
         let blocks = random_blocks_for_loader(r);
-        let mut cfg = EmuCfg::new(m128);
-        cfg.fastload = true;
-        let mut emu = cfg.build();
-        if m128 {
-            page_rom1(&mut emu);
-        }
+        // two tapes out of three go into the machine that has just finished with the previous one (a second tape is
+        // inserted over a used-up, possibly half-read one); every third tape gets a fresh machine
+        let reuse = ti % 3 != 0 && kept.as_ref().map_or(false, |(m, _)| *m == m128);
+        let mut emu = if reuse {
+            kept.take().unwrap().1
+        } else {
+            let mut cfg = EmuCfg::new(m128);
+            cfg.fastload = true;
+            let mut e = cfg.build();
+            if m128 {
+                page_rom1(&mut e);
+            }
+            e
+        };
         emu.load_tape(Tape::Tap(DynAsset::mem(tap_bytes(&blocks)))).expect("load_tape");
         out.ev(json!({"ev":"tape","blocks":blocks,"m128":m128}));
-        let extra = 1 + r.below(2) as usize;
+        let extra = if r.chance(1, 4) { 0 } else { 1 + r.below(2) as usize };
         let mut k = 0usize;
         let mut rewinds = 0;
         while k < blocks.len() + extra {
@@ -443,6 +452,7 @@ fn fastload(out: &mut Out, r: &mut Rng, tapes: u64, m128_too: bool) {
                 out.ev(ev);
             }
         }
+        kept = Some((m128, emu));
     }
 }
 
